@@ -1,0 +1,33 @@
+//go:build verif
+// +build verif
+
+package gemmill
+
+import (
+	"github.com/spf13/viper"
+
+	crypto "github.com/dappledger/AnnChain/gemmill/go-crypto"
+	"github.com/dappledger/AnnChain/gemmill/p2p"
+	"github.com/dappledger/AnnChain/gemmill/refuse_list"
+	"github.com/dappledger/AnnChain/gemmill/types"
+)
+
+// Exports of the unexported p2p admission assembly for the transport/admission check (/verif C20).
+// Each function only forwards to the production function of the same name; nothing here is compiled
+// without the build tag "verif".
+
+// VerifPrepareP2P is prepareP2P: the Switch of a node with its listener, NodeInfo, node key and the
+// refuse-list filter installed, exactly as NewAngine obtains it.
+func VerifPrepareP2P(conf *viper.Viper, genesis *types.GenesisDoc, privValidator *types.PrivValidator, refuseList *refuse_list.RefuseList) (*p2p.Switch, error) {
+	return prepareP2P(conf, genesis, privValidator, refuseList)
+}
+
+// VerifAuthByCA is authByCA, the closure assembleStateMachine installs with Switch.SetAuthByCA.
+func VerifAuthByCA(conf *viper.Viper, ppValidators **types.ValidatorSet) func(*p2p.NodeInfo) error {
+	return authByCA(conf, ppValidators)
+}
+
+// VerifRefuseListFilter is refuseListFilter, the closure prepareP2P installs with Switch.SetRefuseListFilter.
+func VerifRefuseListFilter(refuseList *refuse_list.RefuseList) func(crypto.PubKey) error {
+	return refuseListFilter(refuseList)
+}
